@@ -474,6 +474,28 @@ def canon_tree(t, tr):
 # the adapter (runs in worker processes, real utype from $UTYPE_REPO)
 # ----------------------------------------------------------------------------------------------
 
+_INF = re.compile(r'(?<![\w"])-?Infinity(?![\w"])')
+
+
+def _one(w, ft, fv, mode):
+    """round trip of one field alone: None when the property holds for it, else the clause that fails"""
+    from utype.utils.encode import JSONEncoder, JSONSerializer
+    t = {"data": [[cps("f"), ft]]}
+    try:
+        inst = w.val(t, {"data": [[cps("f"), fv]]})
+        raw = JSONSerializer().dumps(inst) if mode == "serializer" else json.dumps(inst, cls=JSONEncoder)
+    except Exception:
+        return "enc"
+    text = raw.decode("utf-8") if isinstance(raw, bytes) else raw
+    if not is_standard_json(text):
+        return "std" if is_standard_json(_INF.sub("0", text)) else "std-other"
+    try:
+        back = w.data(t["data"]).__from__(raw)
+    except Exception:
+        return "parse"
+    return None if back == inst else "equal"
+
+
 def impl(case):
     import utype  # noqa
     from utype.utils import exceptions as exc
@@ -504,13 +526,23 @@ def impl(case):
     except Exception as e:
         out["tree"] = "unreadable:" + type(e).__name__
     cls = w.data(t["data"])
+
+    def blame():
+        # which fields fail on their own, and in which clause (for the classification of a violation)
+        out["bad_fields"] = [[n, why] for (n, ft), (_, fv) in zip(t["data"], case["val"]["data"])
+                             for why in [_one(w, ft, fv, case.get("mode"))] if why]
+
+    if not out["std"]:
+        blame()
     try:
         back = cls.__from__(raw)
     except exc.ParseError:
         out["parse"] = "perr"
+        blame()
         return out
     except Exception as e:
         out["parse"] = "escape:" + type(e).__name__
+        blame()
         return out
     out["parse"] = "ok"
     try:
@@ -518,6 +550,8 @@ def impl(case):
     except Exception as e:
         out["equal"] = False
         out["eq_error"] = type(e).__name__
+    if not out["equal"]:
+        blame()
     try:
         out["back"] = w.desc(t, back)
     except Exception as e:
@@ -1215,7 +1249,7 @@ class C14(Check):
     driver = "C14"
     impl = "harness.c14:impl"
     case_timeout = 20.0
-    budget = {"quick": 2500, "thorough": 150000}
+    budget = {"quick": 8000, "thorough": 150000}
     search_budget = {"quick": 3000, "thorough": 20000}
     rule = ("seeded data-class declarations (1-3 plain required fields, field types over int float str bool None bytes Decimal date "
             "datetime time timedelta UUID Enum (plain / int / str mixin) List Set Tuple[...] Tuple[T, ...] Dict[str|int, T] nested "
@@ -1272,6 +1306,8 @@ class C14(Check):
         dom = in_domain(case["ty"], case["val"]) and not has_optional(case["ty"])
         if bool(mo["inDomain"]) != dom and not has_optional(case["ty"]):
             return f"domain predicates differ: lean inDomain={mo['inDomain']} python in_domain={dom}"
+        if bool(mo["hasInf"]) != has_inf(case["val"]) or bool(mo["setOfContainers"]) != set_of_containers(case["ty"]):
+            return "known-defect predicates differ between Lean and the harness"
         if mo["enc"].startswith("unmodelled") or mo.get("parse", "").startswith("unmodelled"):
             return None
         if (mo["enc"] == "ok") != (io.get("enc") == "ok"):
@@ -1313,9 +1349,17 @@ class C14(Check):
         return None
 
     def classify(self, case, io, why):
-        if "not standard JSON" in why and has_inf(case["val"]):
+        # a violation falls under a known finding only if every field that fails on its own fails in that
+        # finding's clause and is of that finding's kind
+        fields = {json.dumps(n): (ft, fv) for (n, ft), (_, fv) in zip(case["ty"]["data"], case["val"]["data"])}
+        bad = [(fields[json.dumps(n)], w) for n, w in io.get("bad_fields", [])]
+        if not bad:
+            return None
+        if not all((w == "std" and has_inf(fv)) or (w == "parse" and set_of_containers(ft)) for (ft, fv), w in bad):
+            return None
+        if "not standard JSON" in why and any(w == "std" for _, w in bad):
             return "float-inf-nonstandard-json"
-        if "parsing the encoded text back failed" in why and set_of_containers(case["ty"]):
+        if "parsing the encoded text back failed" in why and any(w == "parse" for _, w in bad):
             return "set-of-tuples-unhashable"
         return None
 
@@ -1365,7 +1409,7 @@ class C14(Check):
                 bad.append("MAX_SAFE_NUMBER is not in the Lean model")
         except Exception as e:
             bad.append(f"model table check failed: {e}")
-        n = 400 if tier == "quick" else 20000
+        n = 1500 if tier == "quick" else 20000
         from .common import env_seed
         laws = law_audit(env_seed(), n)
         self._law_cases = n
